@@ -135,6 +135,9 @@ func cmdRun(args []string) {
 			}
 			if *verbose || ob.Status != "discharged" {
 				fmt.Printf("%-10s %-60s %s [%s %.2fs] %s\n", ob.Status, ob.Name, ob.PosStr, ob.Backend, ob.Seconds, ob.Desc)
+				if ob.Status == "undecided" && *verbose {
+					fmt.Printf("           solvers: %s\n", ob.SolverOut)
+				}
 			}
 		}
 		if *verbose {
